@@ -340,3 +340,34 @@ func H_C08_compileCorners(i int) {
 		verifAssert(err == nil, "the control program compiles")
 	}
 }
+
+// H_C08_mismatchText(kind, n, where): a string literal of n characters of 1, 2,
+// 3 or 4 bytes each (kind) is bound to an int parameter - directly, inside an
+// array literal or inside a map literal - so that the compiler has to describe
+// the offending value in its error.
+//
+//	C08: the program is rejected with an error (whose text can be produced);
+//	     the compiler does not crash while abbreviating the value, whatever the
+//	     relation between its length in bytes and in characters.
+func H_C08_mismatchText(kind, n, where int) {
+	unit := []string{"a", "é", "€", "\U0001F9EC"}[kind]
+	lit := ""
+	for i := 0; i < n; i++ {
+		lit += unit
+	}
+	value := `"` + lit + `"`
+	switch where {
+	case 1:
+		value = "[" + value + "]"
+	case 2:
+		value = `{"k": ` + value + `}`
+	}
+	src := "stage S(\n    in  int x,\n    out int y,\n    src comp \"s\",\n)\n\ncall S(\n    x = " + value + ",\n)\n"
+	var parser Parser
+	_, _, _, err := parser.ParseSourceBytes([]byte(src), "/m/mm.mro", nil, false)
+	verifCover("ill-typed string literal compiled")
+	verifAssert(err != nil, "C07/C08: a string bound to an int parameter is rejected with an error")
+	if err != nil {
+		verifAssert(len(err.Error()) > 0, "C08: the error has a text")
+	}
+}
